@@ -18,7 +18,7 @@ use datacake_eventual_consistency::{
 use datacake_node::{ClusterMember, ConnectionConfig, DCAwareSelector, DatacakeNode, DatacakeNodeBuilder};
 use datacake_rpc::verif::Verdict;
 
-use crate::store::ModelStore;
+use crate::store::{ModelStore, SideStore};
 
 pub fn addr_of(id: u8) -> SocketAddr {
     ([10, 0, 0, id], 7000).into()
@@ -32,6 +32,24 @@ pub struct NodeH {
     pub store: ModelStore,
     pub ec: EventuallyConsistentStore<ModelStore>,
     pub handle: ReplicatedStoreHandle<ModelStore>,
+    /// a second store extension of another storage type on the same node (see `set_second_store`)
+    pub second: Option<Second>,
+}
+
+pub struct Second {
+    pub store: ModelStore,
+    pub ec: EventuallyConsistentStore<SideStore>,
+    pub handle: ReplicatedStoreHandle<SideStore>,
+}
+
+thread_local! {
+    static SECOND_STORE: std::cell::Cell<u8> = const { std::cell::Cell::new(0) };
+}
+
+/// 0 = nodes host one store extension; 1 = every node started from now on also hosts a second extension (storage
+/// type `SideStore`) added AFTER the main one; 2 = added BEFORE it. Reset by `sim` at the end of a case.
+pub fn set_second_store(mode: u8) {
+    SECOND_STORE.with(|c| c.set(mode));
 }
 
 #[derive(Debug, Clone, Copy, PartialEq, Eq)]
@@ -145,15 +163,33 @@ pub async fn start_node(id: u8, dc: &str, store: ModelStore, members: &[ClusterM
     if dbg {
         eprintln!("DEBUG start_node {id}: creating the extension {:?} after start_node began", t_begin.elapsed());
     }
+    let mode = SECOND_STORE.with(|c| c.get());
+    let mut second = None;
+    if mode == 2 {
+        second = Some(start_second(&node, repair).await);
+    }
     let ec = node
         .add_extension(EventuallyConsistentStoreExtension::new(store.clone()).with_repair_interval(repair))
         .await
         .expect("extension");
+    if mode == 1 {
+        second = Some(start_second(&node, repair).await);
+    }
     if dbg {
         eprintln!("DEBUG start_node {id}: extension ready after {:?}", t_dbg.elapsed());
     }
     let handle = ec.handle();
-    NodeH { id, addr, dc: dc.to_string(), node, store, ec, handle }
+    NodeH { id, addr, dc: dc.to_string(), node, store, ec, handle, second }
+}
+
+async fn start_second(node: &DatacakeNode, repair: Duration) -> Second {
+    let store = ModelStore::default();
+    let ec = node
+        .add_extension(EventuallyConsistentStoreExtension::new(SideStore(store.clone())).with_repair_interval(repair))
+        .await
+        .expect("second extension");
+    let handle = ec.handle();
+    Second { store, ec, handle }
 }
 
 pub async fn start_cluster(layout: &Layout) -> Vec<NodeH> {
@@ -216,6 +252,7 @@ where
         f(net).await
     });
     datacake_rpc::verif::enable(false);
+    set_second_store(0);
     datacake_node::verif::set_rng_seed(None);
     datacake_crdt::verif::set_wall(None);
     drop(rt);
